@@ -56,7 +56,13 @@ CLAIMS = {
               "Race.clock_sound: the detector panics iff a recorded conflicting access clock is not ≤ the current "
               "causality (decision logic, all states). 'Panic iff some execution races' is evaluated against RC11 "
               "(atomics, fences) and the reference interleaving semantics with textbook vector clocks (locks, channels, "
-              "notify, park, join) on message-passing families; decisions replayed on the twin. Known: F7, F17."),
+              "notify, park, join) on message-passing families, incl. read/write SECTIONS that stay open across other "
+              "operations; decisions replayed on the twin. New: Cell.section_read/write_panics_iff, read_end_recorded; and "
+              "the EXACTNESS theorem for the lock fragment (Props/Race.lean): Race.twin_panics_iff_reference_races (at a "
+              "cell access the twin panics with causality k iff the reference step stops with race k, for every reachable "
+              "related state), reported_race_is_real, no_missed_race_on_this_path (a completed run corresponds to a "
+              "race-free reference execution) - proved by relating loom's clocks and textbook vector clocks through a "
+              "common clock-system abstraction. F17 repaired (3b12fce). Known: F7."),
         ref="DESIGN.md §3 C04",
         technique="Lean 4 decision-logic theorems for the race detector + race oracles (RC11, SC+vector clocks) + decision replay"),
     "C05": dict(
@@ -88,14 +94,21 @@ CLAIMS = {
     "C08": dict(
         text=("Lean 4 laws: Notify.flag_not_lost, Wait.notifier_hb, Notify.single_spurious, Join.never_spurious, "
               "Wait.only_after_notify + no_other_op_notifies (induction over all lock/wait operations), Park.token/unpark "
-              "tables, Condvar.notify_one_fifo/notify_all/reacquires, Join.after_exit/hb; refuted full forms with "
-              "kernel-checked witnesses (F5/F6, F17, F18). Evaluated against reference outcomes; decision replay."),
+              "tables, Condvar.notify_one_fifo/notify_all/reacquires, Join.after_exit/hb/after_destructors; after the "
+              "repairs of F5/F6/F18 (e4710d6), F15 (bd8314b), F17 (3b12fce), F18a (0b04412), F20 (e931437) the former "
+              "refutation witnesses are theorems of the repaired behaviour: Park.unpark_wakes_only_parked, "
+              "token_survives_blocking, unpark_then_park_never_blocks (over arbitrary interleaved stages), "
+              "unpark_happens_before_park, Condvar.unpark_is_no_notification, Release.keeps_token. Run-level REFINEMENT "
+              "for channels, Notify (with its spurious return), park/unpark and condvars: Refine2.run_is_reference_execution "
+              "(Props/Refine2.lean). Evaluated against reference outcomes; decision replay. Known: F19."),
         ref="DESIGN.md §3 C08",
         technique="Lean 4 state-machine laws for notify/park/condvar/join + reference outcomes + decision replay"),
     "C09": dict(
         text=("Lean 4: Chan.counts (invariant), Chan.fifo over arbitrary send/recv runs, recv_blocks_iff_empty, "
-              "try_recv_exact, send_hb_recv, leak_iff, one-step simulation of Spec/SC. Evaluated against reference "
-              "outcomes; decision replay. Known finding F7 (try_recv / Receiver::drop emptiness test unbranched)."),
+              "try_recv_exact, send_hb_recv, leak_iff, one-step simulation of Spec/SC, and the run-level refinement "
+              "Refine2.run_is_reference_execution (every twin run over channel programs is a reference execution). Evaluated "
+              "against reference outcomes; decision replay. Known finding F7 (try_recv / Receiver::drop emptiness test "
+              "unbranched)."),
         ref="DESIGN.md §3 C09",
         technique="Lean 4 invariants over channel histories + reference outcomes + decision replay"),
     "C10": dict(
